@@ -493,6 +493,10 @@ def run_history(case):
             rep = statuslib.RecordingReporter()
             code, out, err = w.doit(argv, rep)
             o['steps'] = run_steps(rep.events, index)
+            done_ = set(n for k, n, _ in rep.events if k in FINAL)
+            # first select_task pass (get_status) without a final report: the run stopped before the second pass
+            o['unfinished'] = sorted(set(index[n] for k, n, _ in rep.events
+                                         if k == 'get_status' and n not in done_ and n in index))
             o['executed'] = list(w.executed)
         elif kind == 'forget':
             o['fs'] = None
@@ -565,7 +569,8 @@ def to_requests(case, obs):
             ops_m.append(['checker', statuslib.CK_MODEL[op[1]]])
             ops_p.append(['checker', statuslib.CK_MODEL[op[1]]])
         elif kind == 'run':
-            m = ['run', {'order': [t for t, _ in o['steps'] if t >= 0], 'always': bool(op[1].get('always')),
+            m = ['run', {'order': [t for t, _ in o['steps'] if t >= 0], 'unfinished': o.get('unfinished') or [],
+                         'always': bool(op[1].get('always')),
                          'plan': model_plan(op[1].get('plan'), case)}]
             ops_m.append(m)
             ops_p.append(m)
